@@ -146,12 +146,12 @@ fn unit_shape(r: &mut Rng, shape: u8, len: usize) -> Vec<f64> {
             }
         }
         15 => {
-            // ordinary grid values with one value in ten 1e300 times smaller (non-zero): a ratio between a current
+            // ordinary grid values with one value in ten 1e315 times smaller (non-zero, subnormal): a ratio between a current
             // and an old value can then overflow although every input is finite (under a positive feed the
             // affine map to positive values makes this an ordinary grid stream)
             for _ in 0..len {
                 let x = (r.below(17) as f64 - 8.0) * 0.25;
-                v.push(if r.chance(0.1) { x * 1e-300 } else { x });
+                v.push(if r.chance(0.1) { x * 1e-315 } else { x });
             }
         }
         _ => {
